@@ -37,6 +37,14 @@ impl SwiftField for Field11R {
     where
         Self: Sized,
     {
+        // The formats below are cut out by byte offsets: only ASCII can be sliced safely, and
+        // no SWIFT character set contains anything else
+        if !input.is_ascii() {
+            return Err(ParseError::InvalidFormat {
+                message: "Field 11R must contain only ASCII characters".to_string(),
+            });
+        }
+
         let mut remaining = input;
 
         // Parse message type (3!n)
@@ -170,6 +178,14 @@ impl SwiftField for Field11S {
     where
         Self: Sized,
     {
+        // The formats below are cut out by byte offsets: only ASCII can be sliced safely, and
+        // no SWIFT character set contains anything else
+        if !input.is_ascii() {
+            return Err(ParseError::InvalidFormat {
+                message: "Field 11S must contain only ASCII characters".to_string(),
+            });
+        }
+
         let mut remaining = input;
 
         // Parse message type (3!n)
@@ -366,6 +382,14 @@ impl SwiftField for Field11 {
     where
         Self: Sized,
     {
+        // The formats below are cut out by byte offsets: only ASCII can be sliced safely, and
+        // no SWIFT character set contains anything else
+        if !input.is_ascii() {
+            return Err(ParseError::InvalidFormat {
+                message: "Field 11 must contain only ASCII characters".to_string(),
+            });
+        }
+
         // Field 11 requires at least 9 characters (3 for MT + 6 for date)
         if input.len() != 9 {
             return Err(ParseError::InvalidFormat {
